@@ -385,6 +385,41 @@ func runB2(p *an.Prog, r *an.Result) {
 			r.Bad(name, "values.Equal not wired to the decision", c.Pos(), fmt.Sprintf("subject argument: %v, evaluated when value: %v, true edge returns true: %v", subj, when, decides))
 		}
 	}
+	// Equal is the only judge: every `return true` is the true edge of an Equal call, and no when value
+	// is passed over without having been handed to Equal
+	equalTrue := func(cond ssa.Value, taken bool) bool {
+		c := an.CallOf(cond)
+		return taken && c != nil && an.CallName(c) == "values.Equal"
+	}
+	an.EachInstr(fn, func(in ssa.Instruction) {
+		ret, ok := in.(*ssa.Return)
+		if !ok {
+			return
+		}
+		res := resultsOf(ret)
+		if b, isC := an.ConstBool(res[0]); isC && b {
+			if an.AllPathsGuarded(ret.Block(), equalTrue) {
+				r.OK(name, "a match is reported only on a true values.Equal", ret.Pos(), "every path to `return true` takes the true edge of an Equal call")
+			} else {
+				r.Bad(name, "a match is reported without values.Equal having said so", ret.Pos(), "a when value matches exactly when it is Equal to the subject; a type-specific shortcut answers differently for named types and mixed numeric kinds")
+			}
+		}
+	})
+	marks := map[*ssa.BasicBlock]bool{}
+	for _, c := range eq {
+		marks[c.Block()] = true
+	}
+	an.EachInstr(fn, func(in ssa.Instruction) {
+		ia, ok := in.(*ssa.IndexAddr)
+		if !ok || !isForwardRangeIndex(ia.Index) || len(marks) == 0 {
+			return
+		}
+		if iterationCanSkip(ia.Block(), marks) {
+			r.Bad(name, "a when value can be passed over without values.Equal", ia.Pos(), "an iteration over the when values reaches the next value without having called Equal")
+		} else {
+			r.OK(name, "every when value is handed to values.Equal", ia.Pos(), "each iteration calls Equal or returns")
+		}
+	})
 	// no raw == on interface operands
 	an.EachInstr(fn, func(in ssa.Instruction) {
 		if b, ok := in.(*ssa.BinOp); ok && (b.Op == token.EQL || b.Op == token.NEQ) && an.IsInterface(b.X.Type()) && !an.IsErrorType(b.X.Type()) {
@@ -1123,6 +1158,21 @@ func runB8(p *an.Prog, r *an.Result) {
 				if strings.HasSuffix(describe(p, o), "Assignment.Variable") {
 					okKey = true
 				}
+			}
+			// and it happens whenever evaluation succeeded: no successful return avoids it
+			skipped := false
+			an.EachInstr(fn, func(in ssa.Instruction) {
+				ret, ok := in.(*ssa.Return)
+				if !ok {
+					return
+				}
+				res := resultsOf(ret)
+				if len(res) > 0 && an.IsNilConst(res[len(res)-1]) && !instrDominates(s, ret) {
+					skipped = true
+				}
+			})
+			if skipped {
+				r.Bad(name, "assign can succeed without binding", s.Pos(), "a successful return is reachable without ctx.Set: whatever the right-hand side evaluates to - nil included - the variable must be rebound")
 			}
 			if okVal && okKey {
 				r.OK(name, "Set(Assignment.Variable, Evaluate(Assignment.ValueFn))", s.Pos(), "binds the evaluated right-hand side under the parsed name")
